@@ -250,9 +250,31 @@ pub fn statement_or_block<'t>(ctx: Context<'t>) -> ParseResult<'t, Statement> {
     }
 }
 
+/// Parse a block that may be opened by an optional `do` (after `fn ..`, `else`, `->`).
+///
+/// A `do` that starts a line is not the opener but a block statement of its own. Newlines
+/// are skipped inside brackets, so without looking at the line the first statement of
+///
+/// ```ignored
+/// (if c do a else
+///     do .. end
+///     b
+/// end)
+/// ```
+///
+/// lost its `do` and its `end` closed the branch.
 pub fn block<'t>(ctx: Context<'t>) -> ParseResult<'t, Vec<Statement>> {
     // To allow implicit block-openings, like "fn ->"
-    let mut ctx = ctx.skip_if(T::Do);
+    if matches!(ctx.token(), T::Do) && !ctx.starts_line() {
+        block_body(ctx.skip(1))
+    } else {
+        block_body(ctx)
+    }
+}
+
+/// Parse the statements of a block whose opening `do` (if any) has been consumed.
+pub fn block_body<'t>(ctx: Context<'t>) -> ParseResult<'t, Vec<Statement>> {
+    let mut ctx = ctx;
 
     let mut errs = Vec::new();
     let mut statements = Vec::new();
@@ -310,7 +332,7 @@ pub fn statement<'t>(ctx: Context<'t>) -> ParseResult<'t, Statement> {
 
         // Block: `{ <statements> }`
         [T::Do, ..] => {
-            let (ctx, statements) = block(ctx)?;
+            let (ctx, statements) = block_body(ctx.skip(1))?;
             (ctx, Block { statements })
         }
 
